@@ -2261,6 +2261,7 @@ func TestVerifC22(t *testing.T) {
 		c22HandoffScripts[2]: "handoff_new_set_2+"}
 	r.Floor("script:handoff-commit-set-id-race", 1)
 	r.Fixed("handoff-race", 1, c22CommitRaceCase)
+	r.Fixed("handoff-keyset-race", 1, c22KeySetRaceCase)
 	r.Fixed("handoff-corpus", len(c22HandoffScripts), func(c *vcommon.Case) {
 		for attempt := 0; attempt < 4; attempt++ {
 			p := c22HandoffScriptParams(c.Idx, attempt)
